@@ -10,6 +10,8 @@ CONSTS = {"script": "gen_consts.py"}
 UNITS = {"script": "gen_units.py"}
 UNITS_ALT = {"script": "gen_units.py", "args": ["lean/CookModel/Gen/UnitsAlt.lean", "corpus/C09/alt_units.toml", "GenAlt"]}
 
+UNITS_LAY = {"script": "gen_units.py", "args": ["lean/CookModel/Gen/UnitsLay.lean", "@repo", "GenLay", "corpus/C12/frac_layer.toml"]}
+
 CHARTABLE = {"harness": ["chartable", "{LEAN}/CookModel/Gen/CharTable.lean"]}
 SYNTAX_TB = [
     "the character-class table (Gen/CharTable.lean) is produced on every run by the real lexer (cfg(cooklang_verif) token hook) and std's char predicates over all 1,112,064 scalar values; the theorems hold for every CharSpec",
@@ -27,7 +29,7 @@ PROPS = {
                         "`AisleConf` equality is taken on freshly parsed configurations (the private `len` cache cell is 0); `ingredients_info` is the lookup"],
     },
     "C12": {
-        "gen": [CONSTS, UNITS, UNITS_ALT],
+        "gen": [CONSTS, UNITS, UNITS_ALT, UNITS_LAY],
         "trusted_base": COMMON_TB + [FLOAT_TB,
             "translators/gen_consts.py (scrapes DENOMS, FIX_RATIO, the 1e-10 tolerance from src/quantity.rs)",
             "modelled, not verified: std f64 trunc/round/fract/as-casts (Lean Float ops are assumed to be the same IEEE operations)"],
